@@ -235,14 +235,18 @@ package mqtt
 //@ ensures[C11,C13] err != nil ==> len(c.pingAck) == old(len(c.pingAck))
 //@ ensures[C11] err == nil && old(len(c.pingAck)) > 0 ==> closed(old(qat(c.pingAck, 0))) && len(c.pingAck) == old(len(c.pingAck)) - 1
 
-// onPUBLISH only slices c.peek and queues the acknowledgement; nothing is written.
+// onPUBLISH only slices c.peek and queues the acknowledgement; nothing is written, except that an
+// exactly-once PUBLISH whose marker is stored (a retransmission: the earlier PUBREC may be lost) is
+// answered with PUBREC again, and not delivered again (F3, fixed).
+//@ pred qos2dup(c, head): (head/2)%4 == 2 && len(c.peek) >= 4 + c.peek[0]*256 + c.peek[1] && c.peek[2 + c.peek[0]*256 + c.peek[1]]*256 + c.peek[3 + c.peek[0]*256 + c.peek[1]] != 0 && st_has(c.persistence, 65536 + c.peek[2 + c.peek[0]*256 + c.peek[1]]*256 + c.peek[3 + c.peek[0]*256 + c.peek[1]])
 //@ func mqtt.(*Client).onPUBLISH -> message, topic, err
 //@ ensures ref(c.pendingAck) == old(ref(c.pendingAck)) || fresh(c.pendingAck)
 //@ ensures old(len(c.pendingAck)) == 0 || old(len(c.pendingAck)) == 4 ==> len(c.pendingAck) == 0 || len(c.pendingAck) == 4
-//@ modifies c.pendingAck, elems(c.pendingAck)
-//@ requires c.persistence != nil
+//@ modifies c.pendingAck, elems(c.pendingAck), wire, wire_len, wclosed, wdl, chanstate(c.writeSem), chanstate(c.onlineSig)
+//@ requires c.persistence != nil && writable(c)
 //@ requires ref(c.peek) != ref(c.pendingAck) || ref(c.peek) == 0
-//@ ensures[C07] forall(k, wire_len(k) == old(wire_len(k)))
+//@ ensures writable(c) && (old(len(c.onlineSig)) == 1 ==> len(c.onlineSig) == 1 && qat(c.onlineSig, 0) == old(qat(c.onlineSig, 0)))
+//@ ensures[C07] !old(qos2dup(c, head)) ==> forall(k, wire_len(k) == old(wire_len(k))) && len(c.writeSem) == old(len(c.writeSem))
 //@ ensures[C06,C13] forall(k, 0, len(c.peek), c.peek[k] == old(c.peek[k])) && c.peek == old(c.peek)
 //@ ensures[C06] err == nil ==> len(c.peek) >= 2 && ref(topic) == ref(c.peek) && off(topic) == off(c.peek) + 2 && len(topic) == c.peek[0]*256 + c.peek[1]
 //@ ensures[C06] err == nil ==> ref(message) == ref(c.peek) && off(message) == off(c.peek) + 2 + len(topic) + ite((head/2)%4 != 0, 2, 0) && len(message) == len(c.peek) - 2 - len(topic) - ite((head/2)%4 != 0, 2, 0) && len(message) >= 0
@@ -250,9 +254,14 @@ package mqtt
 //@ ensures[C07] err == nil && (head/2)%4 == 1 ==> len(c.pendingAck) == 4 && c.pendingAck[0] == 64 && c.pendingAck[1] == 2 && c.pendingAck[2] == c.peek[2+len(topic)] && c.pendingAck[3] == c.peek[3+len(topic)]
 //@ ensures[C07,C04] err == nil && (head/2)%4 == 2 ==> len(c.pendingAck) == 4 && c.pendingAck[0] == 80 && c.pendingAck[1] == 2 && c.pendingAck[2] == c.peek[2+len(topic)] && c.pendingAck[3] == c.peek[3+len(topic)]
 //@ ensures[C07] err == nil && (head/2)%4 != 0 ==> old(len(c.pendingAck)) == 0 && c.peek[2+len(topic)]*256 + c.peek[3+len(topic)] != 0
+//@ ensures[C04,C07] err == nil ==> !old(qos2dup(c, head))
 //@ ensures[C04] err == nil && (head/2)%4 == 2 ==> !st_has(c.persistence, 65536 + c.peek[2+len(topic)]*256 + c.peek[3+len(topic)])
-//@ ensures[C04] err == errDupe ==> (head/2)%4 == 2 && len(c.peek) >= 4 + c.peek[0]*256 + c.peek[1] && st_has(c.persistence, 65536 + c.peek[2 + c.peek[0]*256 + c.peek[1]]*256 + c.peek[3 + c.peek[0]*256 + c.peek[1]])
-//@ ensures[C13] err != nil ==> c.pendingAck == old(c.pendingAck) && forall(k, 0, len(c.pendingAck), c.pendingAck[k] == old(c.pendingAck[k]))
+//@ ensures[C04] err == errDupe ==> old(qos2dup(c, head))
+// the duplicate is answered: PUBREC with its identifier is the next thing on the connection, nothing stays pending
+//@ ensures[C04,id=duplicate_answered] err == errDupe ==> len(c.pendingAck) == 0 && len(c.writeSem) == 1 && forall(w, w == qat(c.writeSem, 0) ==> wire_len(w) == old(wire_len(w)) + 4 && wire(w)[old(wire_len(w))] == 80 && wire(w)[old(wire_len(w)) + 1] == 2 && wire(w)[old(wire_len(w)) + 2] == c.peek[2 + c.peek[0]*256 + c.peek[1]] && wire(w)[old(wire_len(w)) + 3] == c.peek[3 + c.peek[0]*256 + c.peek[1]])
+// ... or stays pending for the next call when the write failed
+//@ ensures[C04] err != nil && err != errDupe && !perr(err) && old(qos2dup(c, head)) && old(len(c.pendingAck)) == 0 ==> len(c.pendingAck) == 4 && c.pendingAck[0] == 80 && c.pendingAck[1] == 2 && c.pendingAck[2] == c.peek[2 + c.peek[0]*256 + c.peek[1]] && c.pendingAck[3] == c.peek[3 + c.peek[0]*256 + c.peek[1]]
+//@ ensures[C13] err != nil && !old(qos2dup(c, head)) ==> c.pendingAck == old(c.pendingAck) && forall(k, 0, len(c.pendingAck), c.pendingAck[k] == old(c.pendingAck[k]))
 //@ ensures[C13] (head/2)%4 == 3 || len(c.peek) < 2 || (len(c.peek) >= 2 && c.peek[0]*256 + c.peek[1] + 2 > len(c.peek)) ==> err != nil && Is(err, errProtoReset)
 //@ ensures[C04,C16] forall(k, st_has(c.persistence, k) == old(st_has(c.persistence, k)))
 
